@@ -187,15 +187,21 @@ LongStrings == {Rep(120, 250), Rep(121, 251), Rep(122, 300)}      \* around the 
 Str(b) == [k |-> "str", b |-> b]
 Dates == {[k |-> "date", y |-> 0, m |-> 0, d |-> 0], [k |-> "date", y |-> 2024, m |-> 2, d |-> 29],
           [k |-> "date", y |-> 1000, m |-> 1, d |-> 1], [k |-> "date", y |-> 9999, m |-> 12, d |-> 31],
-          [k |-> "date", y |-> 2021, m |-> 0, d |-> 0], [k |-> "date", y |-> 2021, m |-> 7, d |-> 0]}
+          [k |-> "date", y |-> 2021, m |-> 0, d |-> 0], [k |-> "date", y |-> 2021, m |-> 7, d |-> 0],
+          [k |-> "date", y |-> 2021, m |-> 0, d |-> 9], [k |-> "date", y |-> 0, m |-> 1, d |-> 1], [k |-> "date", y |-> 256, m |-> 10, d |-> 10]}
 DT(y, m, d, h, mi, s, us, fsp) == [k |-> "dt", y |-> y, m |-> m, d |-> d, h |-> h, mi |-> mi, s |-> s, us |-> us, fsp |-> fsp]
+(* boundary classes, systematically: every combination of hour / minute / second / fraction being zero or not (the binary *)
+(* form has three lengths that depend on exactly this), plus extremes, zero and partial-zero dates, 3- and 6-digit fractions *)
 DateTimes == {DT(0, 0, 0, 0, 0, 0, 0, 0), DT(2024, 2, 29, 23, 59, 59, 0, 0), DT(2024, 2, 29, 0, 0, 0, 0, 0),
               DT(1970, 1, 1, 0, 0, 1, 0, 0), DT(9999, 12, 31, 23, 59, 59, 999999, 6), DT(2021, 6, 15, 12, 0, 0, 500000, 3),
               DT(2021, 6, 15, 12, 0, 0, 1, 6), DT(2021, 6, 15, 12, 30, 0, 0, 6), DT(2021, 0, 0, 0, 0, 0, 0, 0)}
+             \cup {DT(2021, 6, 15, h, mi, sec, us, IF us = 0 THEN 0 ELSE 6) : h \in {0, 13}, mi \in {0, 7}, sec \in {0, 59}, us \in {0, 500000}}
+             \cup {DT(2021, 6, 15, 0, 0, 0, 0, 6), DT(2021, 6, 15, 0, 0, 0, 120000, 2), DT(2021, 6, 15, 0, 0, 0, 999999, 6)}
 TM(neg, h, mi, s, us, fsp) == [k |-> "time", neg |-> neg, h |-> h, mi |-> mi, s |-> s, us |-> us, fsp |-> fsp]
 Times == {TM(FALSE, 0, 0, 0, 0, 0), TM(FALSE, 12, 34, 56, 0, 0), TM(TRUE, 12, 34, 56, 0, 0), TM(FALSE, 838, 59, 59, 0, 0),
           TM(TRUE, 838, 59, 59, 0, 0), TM(FALSE, 25, 0, 0, 0, 0), TM(FALSE, 100, 0, 0, 0, 0), TM(FALSE, 0, 0, 0, 1, 6),
           TM(TRUE, 0, 0, 0, 500000, 1), TM(TRUE, 0, 0, 1, 0, 0), TM(FALSE, 23, 59, 59, 999999, 6), TM(FALSE, 1, 2, 3, 0, 3)}
+         \cup {TM(neg, h, mi, sec, us, IF us = 0 THEN 0 ELSE 6) : neg \in BOOLEAN, h \in {0, 5, 48}, mi \in {0, 7}, sec \in {0, 9}, us \in {0, 250000}}
 
 ValuesOf(t, u) ==
     IF t \in IntTypes THEN {[k |-> "int", text |-> e.text, b8 |-> e.b8] : e \in {x \in IntTable : x.t = t /\ x.u = u}}
